@@ -87,12 +87,20 @@ fn reader_case(ctx: &mut Ctx) {
                 1 => rem,
                 _ => ctx.rng.below(rem as u64 + 1) as usize,
             }),
-            6 | 7 => ROp::Bytes(match ctx.rng.below(6) {
+            6 | 7 => ROp::Bytes(match ctx.rng.below(8) {
                 0 => 0,
                 1 => rem,
                 2 => rem + 1,
                 3 => rem + ctx.rng.range(1, 1000) as usize,
                 4 => usize::MAX - ctx.rng.below(3) as usize,
+                // a request that would look in-range if it were truncated to 8/16/31/32/48/63 bits
+                5 | 6 => {
+                    let k = *ctx.rng.pick(&[8u32, 16, 31, 32, 32, 33, 48, 63]);
+                    let hi = (1 + ctx.rng.below(3) as usize).wrapping_shl(k);
+                    let lo = ctx.rng.below(rem as u64 + 1) as usize;
+                    let v = hi.wrapping_add(lo);
+                    if v <= rem { rem + 1 } else { v }
+                }
                 _ => ctx.rng.below(rem as u64 + 1) as usize,
             }),
             8 => ROp::Len,
@@ -254,9 +262,12 @@ fn writer_case(ctx: &mut Ctx) {
     let k = if long { ctx.rng.range(20, 150) } else { ctx.rng.range(1, 14) };
     let mut model: Vec<u8> = Vec::new();
     let mut w = VecWriter::new();
-    if !miri && ctx.rng.chance(1, 16) {
-        // start from a writer that already holds a lot (offsets beyond 2^16)
-        let n = *ctx.rng.pick(&[255usize, 256, 65_535, 65_536, 65_537, 100_000]);
+    if ctx.rng.chance(1, 6) {
+        // start from a writer whose length sits just below a power of two (capacity boundaries:
+        // the next few appends cross 2^k), or that already holds a lot (offsets beyond 2^16)
+        let k = if miri { ctx.rng.range(3, 17) } else { ctx.rng.range(3, 18) } as u32;
+        let n = if ctx.rng.chance(3, 4) { (1usize << k) - ctx.rng.range(0, 9) as usize } else { *ctx.rng.pick(&[255usize, 256, 65_535, 65_536, 65_537, 100_000]) };
+        let n = if miri { n.min(1 << 17) } else { n };
         let fill = ctx.rng.bytes(n);
         w.write_bytes(&fill);
         model.extend_from_slice(&fill);
@@ -274,7 +285,12 @@ fn writer_case(ctx: &mut Ctx) {
             _ => {
                 let len = model.len();
                 let n = ctx.rng.range(0, 9) as usize;
-                let off = match ctx.rng.below(8) {
+                let off = match ctx.rng.below(10) {
+                    8 | 9 => {
+                        // in range only if the offset were truncated to 16/32/48 bits
+                        let k = *ctx.rng.pick(&[16u32, 32, 32, 48, 63]);
+                        (1usize.wrapping_shl(k)).wrapping_add(ctx.rng.below(len as u64 + 1) as usize)
+                    }
                     0 => 0,
                     1 => len.saturating_sub(n),      // last octets, exact fit
                     2 => len.saturating_sub(n) + 1,  // one past
